@@ -1,12 +1,12 @@
 //@ unit ser_rawbytes
 //@ props C16 C01
 //@ kind B
-//@ def quick BS=3 NMAX=10
+//@ def quick BS=3 NMAX=8
 //@ def thorough BS=4 NMAX=20
 //@ cbmc all --unwind 23 --unwinding-assertions --object-bits 10
 //@ replace XMLString_sizeToText
 //@ entry h_ser_rawbytes
-//@ note B (bounded stand-in, not a proof for all sizes): buffer size fBufSize = BS (quick 3, thorough 4; one static object of exactly BS bytes), every initial fill level 0..BS, every length n <= NMAX bytes (quick 10, thorough 20; half as many XMLCh for the wide variants), every content: with these bounds each branch of the chunking code is taken (fits / fill up + flush / k >= 1 whole chunks / remainder / no remainder); loops fully unwound with unwinding assertions. Unbounded n would need loop contracts over the tape; out of budget
+//@ note B (bounded stand-in, not a proof for all sizes): buffer size fBufSize = BS (quick 3, thorough 4; one static object of exactly BS bytes), every initial fill level 0..BS, every length n <= NMAX bytes (quick 8, thorough 20; half as many XMLCh for the wide variants), every content: with these bounds each branch of the chunking code is taken (fits / fill up + flush / k >= 1 whole chunks / remainder / no remainder); loops fully unwound with unwinding assertions. Unbounded n would need loop contracts over the tape; out of budget
 //@ note the streams are a harness stub (trusted model): one concrete ghost tape TAPE[0..TN); BinOutputStream::writeBytes appends, BinInputStream::readBytes delivers the next bytes (fewer than asked at the end of the tape)
 //@ note scenario = what a store engine and a load engine of the same build do: [earlier data of `off` bytes] write(bytes, n) ... destructor flush  ||  constructor fillBuffer, [earlier data consumed] read(bytes, n). flush, write and read (byte and XMLCh variants) and the ensure* helpers are the real bodies; flushBuffer / fillBuffer are stubs (see below)
 //@ note XMLString::sizeToText (throwing paths of the TEST_THROW macros) replaced by the contract proved in ser_pumpcount
